@@ -523,7 +523,14 @@ func TestCorpus(t *testing.T) {
 					f.Close()
 				}
 			}
-			rt_.Skip(oc.inconclusive)
+			// counted, not skipped: a package whose tests cannot be judged (e.g.
+			// its own baseline fails once regenerated) must not make rapid give
+			// up on the whole stage
+			if logf != nil {
+				b, _ := json.Marshal(emLogLine{H: c.hash(), NT: false, Labels: []string{"inconclusive"}})
+				logf.Write(append(b, '\n'))
+			}
+			return
 		}
 		if oc.discarded {
 			if logf != nil {
